@@ -41,10 +41,50 @@ MCCat == <<
                <<[nil |-> FALSE, e |-> <<[nil |-> FALSE, b |-> <<1>>], [nil |-> TRUE, b |-> <<>>], [nil |-> FALSE, b |-> <<2, 3>>]>>],
                  [nil |-> FALSE, v |-> [nil |-> TRUE, b |-> <<>>]], <<116, 97, 105, 108>>>> >>, cfg |-> "default"]
 >>
-AllIdx == 1..Len(MCCat)
+\* ---- C17: the same types used through instances with different options and registrations ----
+MkT == [k |-> "marked"]
+TA == St(<<F("A", 1, "", MkT), F("P", 2, "", [k |-> "ptr", e |-> MkT]), F("S", 3, "", [k |-> "slice", e |-> MkT]),
+           F("M", 4, "", [k |-> "map", key |-> MkT, val |-> MkT]), F("T", 5, "", [k |-> "time"]), F("L", 6, "", [k |-> "slice", e |-> StrT])>>)
+TAz == <<I(0), NilP, [nil |-> TRUE, e |-> <<>>], [nil |-> TRUE, m |-> <<>>], [sec |-> ZeroSec, nsec |-> 0], [nil |-> TRUE, e |-> <<>>]>>
+Neg(n) == [neg |-> TRUE, mag |-> NatLimbs(n)]
+TAv == <<I(5), [nil |-> FALSE, v |-> Neg(3)], [nil |-> FALSE, e |-> <<I(1), I(0), Neg(2)>>], [nil |-> FALSE, m |-> << <<I(7), I(9)>> >>],
+         [sec |-> I(1000), nsec |-> 5], [nil |-> FALSE, e |-> <<<<120>>, <<121>>>>]>>
+TB == St(<<F("A", 1, "", MkT), F("B", 2, "mk", MkT), F("Q", 3, "mk", [k |-> "ptr", e |-> MkT])>>)
+TBz == <<I(0), I(0), NilP>>
+TBv == <<I(300), Neg(300), [nil |-> FALSE, v |-> I(70000)]>>
+TimeT == [k |-> "time"]
+TQ == St(<<F("T", 1, "flattime", TimeT), F("P", 2, "flattime", [k |-> "ptr", e |-> TimeT]), F("U", 3, "", TimeT)>>)
+ZT == [sec |-> ZeroSec, nsec |-> 0]
+TQz == <<ZT, NilP, ZT>>
+TQv == <<[sec |-> I(1000), nsec |-> 5000], [nil |-> FALSE, v |-> [sec |-> I(86400), nsec |-> 7000]], [sec |-> I(77), nsec |-> 9]>>
+SlM == [k |-> "slice", e |-> MkT]
+MpM == [k |-> "map", key |-> MkT, val |-> StrT]
+MCCat17 == <<
+  [T |-> TA, vals |-> <<TAz, TAv>>, cfg |-> "default"], [T |-> TA, vals |-> <<TAz, TAv>>, cfg |-> "mk"],
+  [T |-> TA, vals |-> <<TAz, TAv>>, cfg |-> "pt"], [T |-> TA, vals |-> <<TAz, TAv>>, cfg |-> "pa"],
+  [T |-> TA, vals |-> <<TAz, TAv>>, cfg |-> "pkg"], [T |-> TA, vals |-> <<TAz, TAv>>, cfg |-> "mktag"],
+  [T |-> TB, vals |-> <<TBz, TBv>>, cfg |-> "mktag"], [T |-> TB, vals |-> <<TBz, TBv>>, cfg |-> "mkboth"],
+  [T |-> MkT, vals |-> <<I(0), Neg(1)>>, cfg |-> "mk"], [T |-> MkT, vals |-> <<I(0), Neg(1)>>, cfg |-> "pkg"],
+  [T |-> SlM, vals |-> <<[nil |-> TRUE, e |-> <<>>], [nil |-> FALSE, e |-> <<I(1), I(128)>>]>>, cfg |-> "mk"],
+  [T |-> SlM, vals |-> <<[nil |-> TRUE, e |-> <<>>], [nil |-> FALSE, e |-> <<I(1), I(128)>>]>>, cfg |-> "default"],
+  [T |-> MpM, vals |-> <<[nil |-> TRUE, m |-> <<>>], [nil |-> FALSE, m |-> << <<I(4), <<118>>>> >>]>>, cfg |-> "mkboth"],
+  [T |-> MpM, vals |-> <<[nil |-> TRUE, m |-> <<>>], [nil |-> FALSE, m |-> << <<I(4), <<118>>>> >>]>>, cfg |-> "pkg"],
+  \* a codec registered under a tag for a struct-kind type (time.Time under flattime), as a value and behind a pointer
+  [T |-> TQ, vals |-> <<TQz, TQv>>, cfg |-> "bq"]
+>>
+\* the instance configurations really differ on these items: an option or registration of one instance that leaked into
+\* another would change the bytes
+ScopedDiffer == /\ Encode(CfgN("default"), Bake(TA, ""), TAv) # Encode(CfgN("mk"), Bake(TA, ""), TAv)
+                /\ Encode(CfgN("default"), Bake(TA, ""), TAv) # Encode(CfgN("pt"), Bake(TA, ""), TAv)
+                /\ Encode(CfgN("default"), Bake(TA, ""), TAv) # Encode(CfgN("pa"), Bake(TA, ""), TAv)
+                /\ Encode(CfgN("pkg"), Bake(TA, ""), TAv) = Encode(CfgN("default"), Bake(TA, ""), TAv)
+                /\ Encode(CfgN("mktag"), Bake(TA, ""), TAv) = Encode(CfgN("default"), Bake(TA, ""), TAv)     \* a tagged registration does not apply to untagged positions
+                /\ Encode(CfgN("mktag"), Bake(TB, ""), TBv) # Encode(CfgN("mkboth"), Bake(TB, ""), TBv)
+AllIdx == 1..Len(Cat)
 QuickIdx == {1, 4, 5, 6, 9, 13, 14}
+Quick17 == {1, 2, 5, 7, 9, 13, 15}
 View == sysvars
-ASSUME PrintT(<<"CATALOGUE", ToJson(MCCat)>>)
+ASSUME PrintT(<<"CATALOGUE", ToJson(Cat)>>)
 \* a history is emitted when it cannot be extended (MaxSteps reached); prefixes are judged as part of it
 CaseJson == ToJson([ev |-> "hist", steps |-> hist])
 EmitCase == (Emit /\ Len(hist) = MaxSteps) => PrintT(<<"CASE", CaseJson>>)
